@@ -81,10 +81,10 @@ func NewCheck(prop string) *Check {
 	return c
 }
 
-func (c *Check) Explain(s string)       { c.explanation = s }
-func (c *Check) RuleText(s string)      { c.ruleText = append(c.ruleText, s) }
-func (c *Check) Trusted(s ...string)    { c.trusted = append(c.trusted, s...) }
-func (c *Check) Assume(s ...string)     { c.assumptions = append(c.assumptions, s...) }
+func (c *Check) Explain(s string)        { c.explanation = s }
+func (c *Check) RuleText(s string)       { c.ruleText = append(c.ruleText, s) }
+func (c *Check) Trusted(s ...string)     { c.trusted = append(c.trusted, s...) }
+func (c *Check) Assume(s ...string)      { c.assumptions = append(c.assumptions, s...) }
 func (c *Check) Info(f string, a ...any) { c.infos = append(c.infos, fmt.Sprintf(f, a...)) }
 func (c *Check) Analysed(fn string) {
 	c.funcs[fn] = true
